@@ -177,6 +177,47 @@ def rule_fresh(ctx) -> None:
                   ctx.path_witness(rt, p))
 
 
+def rule_stored_text_not_lengthened(ctx) -> None:
+    """"each with a summary within the token limit": the limit is enforced by reflect() (truncate after normalising); the writer
+    stores that summary.  Whatever the writer still does to the text between the entry and the stored episode must not be able to
+    add whitespace-separated tokens: str() / strip / slicing are fine; a compatibility normalisation (NFKC / NFKD turns one
+    character such as U+FDFA into several words), replace / format / join / padding are not."""
+    EXPANDING = {"replace", "format", "format_map", "join", "expandtabs", "center", "ljust", "rjust", "zfill", "translate"}
+    fn = ctx.func(WRITER + ":_normalize_entry")
+    rd = ctx.rd(fn)
+    cfg = ctx.cfg(fn)
+    stores = []
+    for n in cfg.nodes:
+        if n.kind != "stmt":
+            continue
+        for x in walk_no_defs(n.ast):
+            if isinstance(x, ast.Dict):
+                for k, v in zip(x.keys, x.values):
+                    if k is not None and const_str(k) == "text":
+                        stores.append((n, v))
+    ctx.floor("C19.TOK", "stores of the episode text in the writer", len(stores), 1)
+    for n, v in stores:
+        if isinstance(v, ast.Subscript):
+            continue  # a re-ordering copy of an already built record
+        sl = rd.slice([v], n)
+        scope = list(sl.nodes())
+        for c in [y for y in scope if isinstance(y, ast.Call)]:
+            r = ctx.prog.callee(fn, c)
+            if r and r[1] in ctx.prog.funcs and ctx.prog.funcs[r[1]].module.name == fn.module.name:
+                scope += list(ast.walk(ctx.prog.funcs[r[1]].node))
+        bad = None
+        for y in scope:
+            if isinstance(y, ast.Call) and call_tail(y) == "normalize" and any(isinstance(a, ast.Constant) and isinstance(a.value, str) and "K" in a.value.upper() for a in y.args):
+                bad = bad or y
+            if isinstance(y, ast.Call) and isinstance(y.func, ast.Attribute) and y.func.attr in EXPANDING:
+                bad = bad or y
+            if isinstance(y, ast.BinOp) and isinstance(y.op, (ast.Add, ast.Mod)) and any(isinstance(z, ast.Constant) and isinstance(z.value, str) for z in (y.left, y.right)):
+                bad = bad or y
+        ctx.check(bad is None, "C19.TOK", ctx.okey(f"{fn.qual}/stored-text-not-lengthened"), fn.loc(bad if bad is not None else v), "the writer only copies / strips the truncated summary",
+                  f"`{src(bad)[:50] if bad is not None else ''}` is applied to the summary AFTER reflect() cut it to summary_tokens: it can add whitespace-separated tokens (NFKC turns U+FDFA into four words), "
+                  "so the stored entry exceeds the token limit while result.summary and the log line still look within it")
+
+
 def rule_plan_request_fresh(ctx) -> None:
     """"requested by the plan" means THIS turn's plan.  The gate falls back on a flag that run_policy parks on the state; every
     planner branch of run_policy must rewrite it (the rule-based planner never requests reflection: it clears the flag), or a
@@ -535,6 +576,7 @@ def run(ctx) -> None:
     rule_plan_request_fresh(ctx)
     rule_cap(ctx)
     rule_tok(ctx)
+    rule_stored_text_not_lengthened(ctx)
     rule_pureid(ctx)
     rule_iso(ctx)
     rule_fail(ctx)
